@@ -117,11 +117,14 @@ func (a *Admin) wire(localIP, method, path string, headers [][2]string, body []b
 	}
 	sb.WriteString("\r\n")
 	sb.Write(body)
-	if _, err := conn.Write(sb.Bytes()); err != nil {
-		return 0, nil, err
-	}
+	// a server that refuses early may close before the whole request is written: the reply,
+	// if any, is still read
+	_, werr := conn.Write(sb.Bytes())
 	resp, err := http.ReadResponse(bufio.NewReader(conn), &http.Request{Method: method})
 	if err != nil {
+		if werr != nil {
+			return 0, nil, werr
+		}
 		return 0, nil, err
 	}
 	defer resp.Body.Close()
